@@ -91,11 +91,10 @@ func vC38_gcounter() {
 		vAssert(mxy[i] >= sx[i], "merging never shrinks a per-node count")
 	}
 	vAssert(mxy == vC38_gcSnap(yx), "merge is commutative (per-node state)")
-	vAssert(xy.Value() == yx.Value(), "merge is commutative (value)")
+	vAssert(xy.Value() == mxy[0]+mxy[1]+mxy[2] && x.Value() == sx[0]+sx[1]+sx[2], "Value is the sum of the per-node counts (so the laws on the per-node state carry over to the value)")
 	l := xy.Merge(z).(*GCounter)
 	r := x.Merge(y.Merge(z)).(*GCounter)
 	vAssert(vC38_gcSnap(l) == vC38_gcSnap(r), "merge is associative (per-node state)")
-	vAssert(l.Value() == r.Value(), "merge is associative (value)")
 	vAssert(vC38_gcSnap(z) == sz, "Merge leaves its argument unchanged")
 	xx := x.Merge(x).(*GCounter)
 	vAssert(vC38_gcSnap(xx) == sx && xx.Value() == x.Value(), "merge is idempotent")
@@ -142,6 +141,15 @@ func vC38_pnSnap(c *PNCounter) vC38_pnS {
 	return vC38_pnS{vC38_gcSnap(c.increments), vC38_gcSnap(c.decrements)}
 }
 
+func vC38_pnValue(s vC38_pnS) int64 {
+	var wi, wd uint64
+	for i := 0; i < 3; i++ {
+		wi += s.inc[i]
+		wd += s.dec[i]
+	}
+	return int64(wi) - int64(wd)
+}
+
 func vC38_pncounter() {
 	rep := vC38_pnBuild(vCase("slots"))
 	x, y, z := rep[0], rep[1], rep[2]
@@ -153,19 +161,15 @@ func vC38_pncounter() {
 	for i := 0; i < 3; i++ {
 		vAssert(mxy.inc[i] == vC38_max(sx.inc[i], sy.inc[i]) && mxy.dec[i] == vC38_max(sx.dec[i], sy.dec[i]), "merged per-node increments and decrements are the maxima of the inputs (never mixed up)")
 	}
-	vAssert(mxy == vC38_pnSnap(yx) && xy.Value() == yx.Value(), "merge is commutative")
+	vAssert(mxy == vC38_pnSnap(yx), "merge is commutative (per-node state)")
 	l := xy.Merge(z).(*PNCounter)
 	r := x.Merge(y.Merge(z)).(*PNCounter)
-	vAssert(vC38_pnSnap(l) == vC38_pnSnap(r) && l.Value() == r.Value(), "merge is associative")
+	vAssert(vC38_pnSnap(l) == vC38_pnSnap(r), "merge is associative (per-node state)")
 	vAssert(vC38_pnSnap(z) == sz, "Merge leaves its argument unchanged")
 	xx := x.Merge(x).(*PNCounter)
-	vAssert(vC38_pnSnap(xx) == sx && xx.Value() == x.Value(), "merge is idempotent")
-	var wi, wd uint64
-	for i := 0; i < 3; i++ {
-		wi += sx.inc[i]
-		wd += sx.dec[i]
-	}
-	vAssert(x.Value() == int64(wi)-int64(wd), "Value is the sum of increments minus the sum of decrements")
+	vAssert(vC38_pnSnap(xx) == sx, "merge is idempotent")
+	// the value is a function of the per-node state, so the laws above carry over to Value()
+	vAssert(x.Value() == vC38_pnValue(sx) && xy.Value() == vC38_pnValue(mxy), "Value is the sum of increments minus the sum of decrements")
 	c := x.Clone().(*PNCounter)
 	vAssert(vC38_pnSnap(c) == sx, "Clone yields an equal counter")
 	c.increments.state["a"] = sx.inc[0] + 1
@@ -590,6 +594,13 @@ func vC38_osPick(op, n int, c [7]*ORSet) *ORSet {
 	return out
 }
 
+// faithful copy into one fresh object
+func vC38_osNorm(m *ORSet) *ORSet {
+	var c [7]*ORSet
+	c[0] = m
+	return vC38_osPick(0, 1, c)
+}
+
 func vC38_osBuild(K int) [3]*ORSet {
 	var rep [3]*ORSet
 	for i := 0; i < 3; i++ {
@@ -681,41 +692,55 @@ func vC38_osWellFormed(s *ORSet) bool {
 
 func vC38_orset() {
 	rep := vC38_osBuild(vCase("slots"))
+	part := vCase("part") // the obligations are split over parallel jobs
 	x, y, z := rep[0], rep[1], rep[2]
 	sx, sy, sz := vC38_osSnap(x), vC38_osSnap(y), vC38_osSnap(z)
-	vAssert(vC38_osWellFormed(x), "reachable set: dots distinct, covered by the clock, never shared between elements")
 	xy := x.Merge(y).(*ORSet)
-	yx := y.Merge(x).(*ORSet)
-	vAssert(vC38_osSnap(x) == sx && vC38_osSnap(y) == sy, "Merge leaves both inputs unchanged")
-	vAssert(vC38_osWellFormed(xy), "merged set is well formed")
-	vAssert(vC38_osEq(xy, yx), "merge is commutative (dots as sets, clock)")
-	vAssert(vC38_osLeq(x, xy) && vC38_osLeq(y, xy), "merge is an upper bound of both inputs")
-	cy := vC38_clockSnap(y.clock)
-	for e := 0; e < 2; e++ {
-		el := vC38_elems[e]
-		vAssert(xy.Contains(el) == yx.Contains(el), "merge is commutative (membership)")
-		dx, dy, dm := x.entries[el], y.entries[el], xy.entries[el]
-		for i := 0; i < len(dx); i++ {
-			vAssert(vC38_dotIn(dm, dx[i]) || (vC38_dominated(dx[i], cy) && !vC38_dotIn(dy, dx[i])), "an add is dropped by merge only if the other side has observed and removed it")
-		}
-		vAssert(xy.Contains(el) == (len(dm) > 0), "Contains reports exactly the elements with a surviving dot")
-	}
-	l := xy.Merge(z).(*ORSet)
-	r := x.Merge(y.Merge(z)).(*ORSet)
-	vAssert(vC38_osEq(l, r), "merge is associative (dots as sets, clock)")
-	vAssert(l.Contains(vC38_elems[0]) == r.Contains(vC38_elems[0]) && l.Contains(vC38_elems[1]) == r.Contains(vC38_elems[1]) && l.Len() == r.Len(), "merge is associative (membership)")
-	vAssert(vC38_osSnap(z) == sz, "Merge leaves its argument unchanged")
-	vAssert(vC38_osEq(x.Merge(x).(*ORSet), x), "merge is idempotent")
-	c := x.Clone().(*ORSet)
-	vAssert(vC38_osSnap(c) == sx, "Clone yields an equal set")
-	c.clock["a"] = sx.clock[0] + 1
-	for e := 0; e < 2; e++ {
-		if ds := c.entries[vC38_elems[e]]; len(ds) > 0 {
-			ds[0].counter += 7
+	if part == 0 {
+		vAssert(vC38_osWellFormed(x), "reachable set: dots distinct, covered by the clock, never shared between elements")
+		yx := y.Merge(x).(*ORSet)
+		vAssert(vC38_osSnap(x) == sx && vC38_osSnap(y) == sy, "Merge leaves both inputs unchanged")
+		vAssert(vC38_osWellFormed(xy), "merged set is well formed")
+		vAssert(vC38_osEq(xy, yx), "merge is commutative (dots as sets, clock)")
+		vAssert(vC38_osLeq(x, xy) && vC38_osLeq(y, xy), "merge is an upper bound of both inputs")
+		cy := vC38_clockSnap(y.clock)
+		for e := 0; e < 2; e++ {
+			el := vC38_elems[e]
+			vAssert(xy.Contains(el) == yx.Contains(el), "merge is commutative (membership)")
+			dx, dy, dm := x.entries[el], y.entries[el], xy.entries[el]
+			for i := 0; i < len(dx); i++ {
+				vAssert(vC38_dotIn(dm, dx[i]) || (vC38_dominated(dx[i], cy) && !vC38_dotIn(dy, dx[i])), "an add is dropped by merge only if the other side has observed and removed it")
+			}
+			vAssert(xy.Contains(el) == (len(dm) > 0), "Contains reports exactly the elements with a surviving dot")
 		}
 	}
-	delete(c.entries, vC38_elems[0])
-	vAssert(vC38_osSnap(x) == sx, "Clone shares no storage with the original")
+	if part == 1 {
+		l := vC38_osNorm(xy).Merge(z).(*ORSet)
+		r := x.Merge(vC38_osNorm(y.Merge(z).(*ORSet))).(*ORSet)
+		vAssert(vC38_osEq(l, r), "merge is associative (dots as sets, clock)")
+		vAssert(l.Contains(vC38_elems[0]) == r.Contains(vC38_elems[0]) && l.Contains(vC38_elems[1]) == r.Contains(vC38_elems[1]) && l.Len() == r.Len(), "merge is associative (membership)")
+		vAssert(vC38_osSnap(z) == sz && vC38_osSnap(x) == sx && vC38_osSnap(y) == sy, "Merge leaves its inputs unchanged (nested merges)")
+	}
+	if part == 2 {
+		vAssert(vC38_osEq(x.Merge(x).(*ORSet), x), "merge is idempotent")
+		c := x.Clone().(*ORSet)
+		vAssert(vC38_osSnap(c) == sx, "Clone yields an equal set")
+		c.clock["a"] = sx.clock[0] + 1
+		for e := 0; e < 2; e++ {
+			if ds := c.entries[vC38_elems[e]]; len(ds) > 0 {
+				ds[0].counter += 7
+			}
+		}
+		delete(c.entries, vC38_elems[0])
+		vAssert(vC38_osSnap(x) == sx, "Clone shares no storage with the original")
+		// Add/Remove copy the maps but share dot slices: a later Add on either result must not disturb the other
+		a1 := x.Add("a", vC38_elems[0])
+		s1 := vC38_osSnap(a1)
+		a2 := x.Add("b", vC38_elems[0])
+		r2 := a1.Remove(vC38_elems[1])
+		a3 := r2.Add("c", vC38_elems[0])
+		vAssert(vC38_osSnap(x) == sx && vC38_osSnap(a1) == s1 && a2 != nil && a3 != nil, "Add and Remove leave the set they are applied to unchanged")
+	}
 	if x.Contains(vC38_elems[0]) && !y.Contains(vC38_elems[0]) && !xy.Contains(vC38_elems[0]) {
 		vCover("observed-remove-wins-over-old-add")
 	}
@@ -760,6 +785,13 @@ func vC38_omPick(op, n int, c [7]*ORMap) *ORMap {
 		}
 	}
 	return out
+}
+
+// faithful copy into one fresh object with concrete keys
+func vC38_omNorm(m *ORMap) *ORMap {
+	var c [7]*ORMap
+	c[0] = m
+	return vC38_omPick(0, 1, c)
 }
 
 func vC38_omBuild(K int) [3]*ORMap {
@@ -819,43 +851,50 @@ func vC38_omObserve(m *ORMap) vC38_omObs {
 
 func vC38_ormap() {
 	rep := vC38_omBuild(vCase("slots"))
+	part := vCase("part") // the obligations are split over parallel jobs
 	x, y, z := rep[0], rep[1], rep[2]
 	sx, sy, sz := vC38_omSnap(x), vC38_omSnap(y), vC38_omSnap(z)
 	ox := vC38_omObserve(x)
-	xy := x.Merge(y).(*ORMap)
-	yx := y.Merge(x).(*ORMap)
-	vAssert(vC38_omSnap(x) == sx && vC38_omSnap(y) == sy, "Merge leaves both inputs unchanged")
+	xy := vC38_omNorm(x.Merge(y).(*ORMap))
 	oxy := vC38_omObserve(xy)
-	vAssert(vC38_osEq(xy.keys, yx.keys), "merge is commutative (key dots, clock)")
-	vAssert(oxy == vC38_omObserve(yx), "merge is commutative (keys and values)")
-	vAssert(vC38_osLeq(x.keys, xy.keys) && vC38_osLeq(y.keys, xy.keys), "merged key set is an upper bound of both key sets")
-	for e := 0; e < 2; e++ {
-		if ox.has[e] && oxy.has[e] {
-			for i := 0; i < 3; i++ {
-				vAssert(oxy.val[e][i] >= ox.val[e][i], "the value of a key that survives merge never shrinks")
+	if part == 0 {
+		yx := vC38_omNorm(y.Merge(x).(*ORMap))
+		vAssert(vC38_omSnap(x) == sx && vC38_omSnap(y) == sy, "Merge leaves both inputs unchanged")
+		vAssert(vC38_osEq(xy.keys, yx.keys), "merge is commutative (key dots, clock)")
+		vAssert(oxy == vC38_omObserve(yx), "merge is commutative (keys and values)")
+		vAssert(vC38_osLeq(x.keys, xy.keys) && vC38_osLeq(y.keys, xy.keys), "merged key set is an upper bound of both key sets")
+		for e := 0; e < 2; e++ {
+			if ox.has[e] && oxy.has[e] {
+				for i := 0; i < 3; i++ {
+					vAssert(oxy.val[e][i] >= ox.val[e][i], "the value of a key that survives merge never shrinks")
+				}
+			}
+			vAssert(oxy.has[e] == xy.keys.Contains(vC38_elems[e]), "every key of the merged key set has a value")
+		}
+	}
+	if part == 1 {
+		l := vC38_omNorm(xy.Merge(z).(*ORMap))
+		r := vC38_omNorm(x.Merge(vC38_omNorm(y.Merge(z).(*ORMap))).(*ORMap))
+		vAssert(vC38_osEq(l.keys, r.keys), "merge is associative (key dots, clock)")
+		vAssert(vC38_omObserve(l) == vC38_omObserve(r), "merge is associative (keys and values)")
+		vAssert(vC38_omSnap(z) == sz && vC38_omSnap(x) == sx && vC38_omSnap(y) == sy, "Merge leaves its inputs unchanged (nested merges)")
+	}
+	if part == 2 {
+		xx := vC38_omNorm(x.Merge(x).(*ORMap))
+		vAssert(vC38_osEq(xx.keys, x.keys) && vC38_omObserve(xx) == ox, "merge is idempotent")
+		c := x.Clone().(*ORMap)
+		vAssert(vC38_omSnap(c) == sx, "Clone yields an equal map")
+		for e := 0; e < 2; e++ {
+			if g, ok := vC38_omValue(c, vC38_elems[e]); ok {
+				g.state["a"] = g.state["a"] + 1
+			}
+			if ds := c.keys.entries[vC38_elems[e]]; len(ds) > 0 {
+				ds[0].counter += 7
 			}
 		}
-		vAssert(oxy.has[e] == xy.keys.Contains(vC38_elems[e]), "every key of the merged key set has a value")
+		c.keys.clock["b"] = sx.keys.clock[1] + 1
+		vAssert(vC38_omSnap(x) == sx, "Clone shares no storage with the original")
 	}
-	l := xy.Merge(z).(*ORMap)
-	r := x.Merge(y.Merge(z)).(*ORMap)
-	vAssert(vC38_osEq(l.keys, r.keys), "merge is associative (key dots, clock)")
-	vAssert(vC38_omObserve(l) == vC38_omObserve(r), "merge is associative (keys and values)")
-	vAssert(vC38_omSnap(z) == sz, "Merge leaves its argument unchanged")
-	xx := x.Merge(x).(*ORMap)
-	vAssert(vC38_osEq(xx.keys, x.keys) && vC38_omObserve(xx) == ox, "merge is idempotent")
-	c := x.Clone().(*ORMap)
-	vAssert(vC38_omSnap(c) == sx, "Clone yields an equal map")
-	for e := 0; e < 2; e++ {
-		if g, ok := vC38_omValue(c, vC38_elems[e]); ok {
-			g.state["a"] = g.state["a"] + 1
-		}
-		if ds := c.keys.entries[vC38_elems[e]]; len(ds) > 0 {
-			ds[0].counter += 7
-		}
-	}
-	c.keys.clock["b"] = sx.keys.clock[1] + 1
-	vAssert(vC38_omSnap(x) == sx, "Clone shares no storage with the original")
 	if ox.has[0] && vC38_omObserve(y).has[0] && oxy.val[0][0] > 0 && oxy.val[0][1] > 0 {
 		vCover("same-key-written-on-two-nodes")
 	}
